@@ -183,6 +183,18 @@ func snappyWrite(w compress.Writer, payload []byte, split bool) error {
 func snappyHistory(c *ctx, ids []int64, split bool) {
 	w := compress.NewSnappyWriter()
 	r := compress.NewSnappyReader()
+	// blocks handed out by Bytes() are kept by the caller (replica queues them) while the writer is reused:
+	// every one of them must still decode to its payload after all later chunks were produced
+	var kept [][]byte
+	defer func() {
+		for step, comp := range kept {
+			got, err := compress.NewSnappyReader().Uncompress(comp)
+			if err != nil || !bytes.Equal(got, snappyPayloads[ids[step]]) {
+				c.viol("reuse", "block-kept-across-writer-reuse", "snappyWriter.Bytes", "block %d of %d (%s) no longer decodes to its payload after the writer was reused: err %v", step, len(kept), snappyNames[ids[step]], err)
+				return
+			}
+		}
+	}()
 	for step, id := range ids {
 		scen := "fresh"
 		clause := "roundtrip"
@@ -195,6 +207,7 @@ func snappyHistory(c *ctx, ids []int64, split bool) {
 			return
 		}
 		comp := w.Bytes() // also resets the writer for the next chunk
+		kept = append(kept, comp)
 		got, err := r.Uncompress(comp)
 		if err != nil {
 			c.viol(clause, scen, "snappyReader.Uncompress", "step %d (%s): %v", step, snappyNames[id], err)
